@@ -119,6 +119,12 @@ theorem order_and_once (c : Cfg) (hst : c.strip = false) (hl : c.hasLog = true)
 
 /-! ### strip_ansi -/
 
+/-- the escape introducer is ESC `[` and the terminators are the letters H f A B C D R s u J K h l p m -/
+theorem ansi_tables_as_documented :
+    ANSI_ESCAPE_BEGIN = [27, 91] ∧
+    ANSI_TERMINATORS = (ascii ['H', 'f', 'A', 'B', 'C', 'D', 'R', 's', 'u', 'J', 'K', 'h', 'l', 'p', 'm']).map fun b => [b] := by
+  decide
+
 /-- `_log` outside capture mode, for either setting of strip_ansi -/
 theorem logData_plain' (c : Cfg) (d : Bytes) (s : S) (he : s.err = none) (hm : s.p.mode = false) :
     logData c d s = { s with outs := s.outs ++ (if d = [] then [] else
@@ -215,6 +221,29 @@ theorem strip_ansi_partial (c : Cfg) (hc : c.capMax = 0) (hs : c.strip = true) (
     simp only [List.flatten_append, List.flatten_cons, List.flatten_nil, List.append_nil, List.map_cons] at h2 ⊢
     unfold CleanCut at h1
     rw [← List.append_assoc, h2, h1, List.append_assoc]
+
+
+/-- a syntactic sufficient condition for `CleanCut`: the reads before the boundary leave the
+    stripper showing (every escape sequence begun has been terminated) and the boundary does not
+    fall between ESC and `[` -/
+theorem cleanCut_of_state (a b : Bytes) (h1 : stripState true a = true) (h2 : NoStraddle a b) : CleanCut a b := by
+  unfold CleanCut
+  rw [stripRef_append b a true h2, h1]
+
+/-- `strip_ansi_partial` with the syntactic hypothesis -/
+theorem strip_ansi_partial' (c : Cfg) (hc : c.capMax = 0) (hs : c.strip = true) (hl : c.hasLog = true)
+    (chunks : List Bytes)
+    (hclean : ∀ (pre : List Bytes) (x : Bytes) (post : List Bytes), chunks = pre ++ x :: post →
+      stripState true pre.flatten = true ∧ NoStraddle pre.flatten x) :
+    loggedOf (feedAll c chunks init).outs = stripRef true chunks.flatten :=
+  strip_ansi_partial c hc hs hl chunks fun pre x post h =>
+    cleanCut_of_state _ _ (hclean pre x post h).1 (hclean pre x post h).2
+
+-- non-vacuity: "hi ESC[31m" | "x" satisfies the syntactic hypothesis; "ESC[3" | "1m" and "ESC" | "[m" do not
+example : stripState true [104, 105, 27, 91, 51, 49, 109] = true ∧ NoStraddle [104, 105, 27, 91, 51, 49, 109] [120] := by
+  refine ⟨by decide, ?_⟩; unfold NoStraddle; decide
+example : stripState true [27, 91, 51] = false := by decide
+example : ¬ NoStraddle [97, 27] [91, 109] := by unfold NoStraddle; decide
 
 /-- F12 (open): `ESC [ 3` + `1 m h e l l o` in two reads logs `1mhello`; in one read `hello` -/
 theorem strip_fragmented_counterexample :
@@ -473,5 +502,21 @@ example :
                      btok := stdout_BEGIN, etok := stdout_END }
     (sysLookup 5 (sysRun [(5, [1]), (7, [2]), (5, [3])] [(5, c, init), (7, c, init)])).map (fun cs => loggedOf cs.2.outs)
       = some [1, 3] := by decide
+
+/-! ### redirect_stderr -/
+
+/-- `redirect_merges`: with redirect_stderr the child's descriptors 1 and 2 are the same pipe
+    (so the kernel orders the two streams by write order), no stderr pipe exists, and exactly one
+    output dispatcher — a stdout one — reads it; every theorem above then applies to the merged
+    stream.  Without it there are two pipes and one dispatcher per channel. -/
+theorem redirect_merges (a b c d e f : Nat) (i o er : Int) :
+    (outputDispatchers true a b c d e f = [(c, true)] ∧
+     (makePipes (mkdisp_a0 true none none none) a b c d e f).stderr = none ∧
+     childDups true i o er = [(i, 0), (o, 1), (o, 2)]) ∧
+    (outputDispatchers false a b c d e f = [(c, true), (e, false)] ∧
+     childDups false i o er = [(i, 0), (o, 1), (er, 2)]) := by
+  simp [outputDispatchers, makePipes, childDups, mkdisp_a0, mkdisp_g0, mkdisp_g1, mkpipes_g0,
+    childfds_c0_0, childfds_c0_1, childfds_c1_0, childfds_c1_1, childfds_c2_0, childfds_c2_1, childfds_c3_0, childfds_c3_1,
+    childfds_g0]
 
 end Sv.Props.C07
